@@ -32,6 +32,12 @@ def run(chk):
         dict(flavour="asan-ubsan", scen="legc", runs=(1000, 25000), opts={"cb": 0, "singleRowOnly": 1, "turned": 0, "wideOrdering": 0, "varyScale": 8,
                                                                           "utilLo": 0.5, "utilHi": 1.6, "maxMovable": 14}),
     ]
+    plan += [
+        # large coordinates (up to 2^20): wide cells, far segments of the same row; products width x displacement exceed 2^31
+        dict(flavour="rel", scen="legc", runs=(600, 15000), opts={"cb": 0, "singleRowOnly": 1, "turned": 0, "wideOrdering": 0, "scaleShift": 14,
+                                                                 "utilLo": 0.3, "utilHi": 1.2, "maxMovable": 10}),
+        dict(flavour="rel", scen="leg", runs=(400, 10000), opts={"cb": 0, "singleRowOnly": 1, "turned": 0, "wideOrdering": 0, "scaleShift": 14}),
+    ]
     if not chk.quick:
         small_scope(chk, "C11", lambda ch, runs: [ch.count() for _ in runs])
     run_plan(chk, "C11", plan, nontrivial)
